@@ -42,7 +42,7 @@ for cfg, dd in (('default', {}), ('ndebug', {'NDEBUG': 1}), ('assert_disable', {
 U('C05', 'C05_assign.cpp', defines=dict(DIM=1, NB=3, SB=4, MEMSZ2=24), unwind=6, timeout=900)
 U('C05', 'C05_assign.cpp', defines=dict(DIM=2, NB=2, SB=3, MEMSZ2=16), unwind=6, timeout=900)
 U('C05', 'C05_assign.cpp', name='C05_assign_DIM3_quick', defines=dict(DIM=3, NB=2, SB=4, MEMSZ2=24), entries=['assign_view', 'assign_elements', 'swap_assign_compact_permuted'], unwind=10, timeout=1200, slots=2)
-U('C05', 'C05_assign.cpp', defines=dict(DIM=2, NB=3, SB=4, MEMSZ2=32), unwind=11, timeout=3600, tier='thorough', backend='kissat')
+U('C05', 'C05_assign.cpp', defines=dict(DIM=2, NB=3, SB=4, MEMSZ2=32), unwind=11, timeout=3600, tier='thorough', backend='kissat', per_entry={'swap_views': dict(timeout=9000)})   # swap_views: 32 min on an idle machine, over an hour under load
 U('C05', 'C05_assign.cpp', defines=dict(DIM=3, NB=2, SB=3, MEMSZ2=32), unwind=10, timeout=3600, tier='thorough', backend='kissat')
 
 # ---- C07 equality and ordering
